@@ -10,8 +10,10 @@
        index_start/len slices of _convert_to_parameter_stats.
    (2) array layer (shape + row-major data): literal transcription of jnp.stack / jnp.split /
        jnp.squeeze as used by batch() / unbatch(), in the two variants
-         [unbatch_arr Bare]  : jnp.squeeze(v)          (all unit dims dropped; the code today)
-         [unbatch_arr Axis0] : jnp.squeeze(v, axis=0)  (only the split axis dropped; proposed fix)
+         [unbatch_arr Bare]  : jnp.squeeze(v)          (all unit dims dropped; the code before the
+                                                        fix, finding D9)
+         [unbatch_arr Axis0] : jnp.squeeze(v, axis=0)  (only the split axis dropped; the code after
+                                                        "fix: unbatch squeezes only the two batching axes")
 *)
 From Precond Require Import Base.PyLib.
 Open Scope Z_scope.
